@@ -54,8 +54,15 @@ def run(ctx):
     # (d) cross-process, hash seeds
     jobs = []
     for sim in CONT:
-        for _ in range(ctx.scale(8, 40)):
-            c = allsims.gen_case(ctx.rng, sim)
+        for k_ in range(ctx.scale(16, 48)):
+            c = allsims.gen_case(ctx.rng, sim, nmax=8)
+            if k_ % 2 == 0 and sim in ("Gillespie_SIR", "fast_SIR", "fast_nonMarkov_SIR", "Gillespie_SIS", "fast_SIS", "fast_nonMarkov_SIS") and c["n"] >= 5:
+                # several string-named initial infecteds (+ initially recovered nodes for SIR): the order in which they
+                # enter the candidate structures must be the caller's, not a hash order
+                nodes = list(range(c["n"]))
+                ctx.rng.shuffle(nodes)
+                c["init"] = dict(kind="list", nodes=nodes[:3])
+                c["recs"] = nodes[3:5] if sim in allsims.HAS_RECS else []
             string_labels(c, ctx.rng)
             c["container"] = ctx.rng.choice(["list", "set"]) if c.get("init", {}).get("kind") == "list" else "list"
             if c.get("container") == "set":
